@@ -865,9 +865,117 @@ Proof.
     rewrite db_delete_apps_nil; reflexivity.
 Qed.
 
+Lemma delete_opt' t us refund :
+  match us with [] => Ok tt t | p :: l => gk_delete_appointments t (p :: l) refund end = gk_delete_appointments t us refund.
+Proof. destruct us; [|reflexivity]. apply (delete_opt t [] refund). Qed.
+
+Lemma delete_opt_false t us :
+  match us with [] => Ok tt t | p :: l => Ok tt (db_delete_apps t (p :: l)) end = Ok tt (db_delete_apps t us).
+Proof. destruct us; [rewrite db_delete_apps_nil|]; reflexivity. Qed.
+
 Lemma reorged_opt sc h t :
   match reorged t with [] => Ok [] t | us => reorged_loop sc h us (set_reorged t []) [] end
   = reorged_loop sc h (reorged t) (set_reorged t []) [].
 Proof.
   destruct (reorged t) eqn:E; [|reflexivity]. cbn [reorged_loop]. destruct t; cbn in *; subst; reflexivity.
+Qed.
+
+(* ------------------------------------------------------------------------------------------ *)
+(* the responder's block_connected, stage by stage *)
+
+Definition stale_sel (lim : N) (k : trk) : bool := negb (t_conf k) && N.leb (t_height k) lim.
+
+Record rbc_stages (sc : script) (t : tower) (b : iblock N) (h : N) (t' : tower)
+       (idx : txindex N) (lim : N) (tR t3 t5 : tower) : Prop := {
+  rs_index : ti_update (r_index t) b = Some idx;
+  rs_lim : u32_sub h RETRY = Some lim;
+  rs_no_underflow : existsb (underflows (keys_of (ib_data b)) h (reorged t)) (db_trks t) = false;
+  rs_refund : refund_loop (cc_result (keys_of (ib_data b)) h (set_r_index (set_car_height t h) idx))
+                          (completed_list (keys_of (ib_data b)) h t) = Ok tt tR;
+  rs_t3 : t3 = set_reorged (db_delete_apps tR (completed_list (keys_of (ib_data b)) h t)) [];
+  rs_t5 : exists m l,
+      t5 = with_carrier
+             (set_db_trks t3
+                (stale_rows (eff_status sc t3) h
+                   (map trk_uuid (filter (stale_sel lim)
+                      (reorg_rows (eff_status sc t3) h (reorged tR) (db_trks t3))))
+                   (reorg_rows (eff_status sc t3) h (reorged tR) (db_trks t3)))) m l;
+  rs_carried : carried sc t3 t5;
+  rs_cov_reorg : forall uuid k, In uuid (reorged tR) -> find_trk (db_trks t3) uuid = Some k ->
+                                reorg_covered (eff_status sc t3) t5 k;
+  rs_cov_stale : forall uuid k,
+      In uuid (map trk_uuid (filter (stale_sel lim) (reorg_rows (eff_status sc t3) h (reorged tR) (db_trks t3)))) ->
+      find_trk (reorg_rows (eff_status sc t3) h (reorged tR) (db_trks t3)) uuid = Some k ->
+      aget (car_memo t5) (t_penalty k) = Some (eff_status sc t3 (t_penalty k));
+  rs_final : t' = set_car_memo
+                    (db_delete_apps t5
+                       (filter (reorg_rejected (eff_status sc t3) (db_trks t3)) (reorged tR) ++
+                        filter (stale_rejected (eff_status sc t3)
+                                  (reorg_rows (eff_status sc t3) h (reorged tR) (db_trks t3)))
+                               (map trk_uuid (filter (stale_sel lim)
+                                  (reorg_rows (eff_status sc t3) h (reorged tR) (db_trks t3)))))) []
+}.
+
+Lemma inv_nodup_delete t us : NoDup (map trk_uuid (db_trks t)) -> NoDup (map trk_uuid (db_trks (db_delete_apps t us))).
+Proof. intros H. unfold db_delete_apps. cbn [db_trks set_db_trks set_db_apps]. apply NoDup_map_filter. exact H. Qed.
+
+Theorem r_block_connected_stages le sc t b h t' :
+  Inv t -> r_block_connected le sc t b h = Ok tt t' ->
+  exists idx lim tR t3 t5, rbc_stages sc t b h t' idx lim tR t3 t5.
+Proof.
+  intros HI E. unfold r_block_connected in E.
+  change (r_index (set_car_height t h)) with (r_index t) in E.
+  destruct (ti_update (r_index t) b) as [idx|] eqn:Ei; [|discriminate].
+  set (t1 := set_r_index (set_car_height t h) idx) in *.
+  set (txids := keys_of (ib_data b)) in *.
+  assert (HI1 : Inv t1) by (eapply inv_frame; [|exact HI]; repeat split).
+  pose proof (check_conf_loop_spec le txids h t1 [] HI1) as Hcc.
+  change (reorged t1) with (reorged t) in Hcc. change (db_trks t1) with (db_trks t) in Hcc.
+  change (db_trks t1) with (db_trks t) in E.
+  destruct (existsb (underflows txids h (reorged t)) (db_trks t)) eqn:Eu.
+  { destruct Hcc as [ta Ha]. rewrite Ha in E. discriminate. }
+  rewrite Hcc in E. cbn [bind List.app] in E.
+  change (completed_list txids h t1) with (completed_list txids h t) in E.
+  set (completed := completed_list txids h t) in *.
+  set (t2 := cc_result txids h t1) in *.
+  rewrite (delete_opt t2 completed true) in E. unfold gk_delete_appointments in E.
+  assert (HI2 : Inv t2).
+  { pose proof (check_conf_loop_pres Inv (sb_wr _ (sa_block _ inv_stable)) le txids h (db_trks t1) t1 [] HI1) as Hp.
+    change (db_trks t1) with (db_trks t) in Hp. rewrite Hcc in Hp. exact Hp. }
+  destruct (refund_loop t2 completed) as [[] tR|] eqn:Er; [|discriminate]. cbn [bind] in E.
+  assert (HIR : Inv tR).
+  { pose proof (refund_loop_pres Inv (sb_wr _ (sa_block _ inv_stable)) completed t2 HI2) as Hp. rewrite Er in Hp. exact Hp. }
+  rewrite (reorged_opt sc h (db_delete_apps tR completed)) in E.
+  change (reorged (db_delete_apps tR completed)) with (reorged tR) in E.
+  set (t3 := set_reorged (db_delete_apps tR completed) []) in *.
+  assert (Hnd3 : NoDup (map trk_uuid (db_trks t3))).
+  { change (db_trks t3) with (db_trks (db_delete_apps tR completed)). apply inv_nodup_delete. exact (inv_trks_nodup _ HIR). }
+  destruct (reorged_loop sc h (reorged tR) t3 []) as [rej1 t4|] eqn:El; [|discriminate]. cbn [bind] in E.
+  destruct (reorged_loop_gen sc h (eff_status sc t3) (reorged tR) t3 [] rej1 t4 Hnd3 (fun x => eq_refl) El)
+    as [Hr1 [[m4 [l4 Et4]] [Hc4 Hcov4]]].
+  cbn [List.app] in Hr1.
+  fold RETRY in E. destruct (u32_sub h RETRY) as [lim|] eqn:Elim; [|discriminate].
+  set (e := eff_status sc t3) in *.
+  set (trksC := reorg_rows e h (reorged tR) (db_trks t3)) in *.
+  assert (Ht4 : db_trks t4 = trksC) by (rewrite Et4; reflexivity).
+  rewrite Ht4 in E. fold (stale_sel lim) in E.
+  assert (Hnd4 : NoDup (map trk_uuid (db_trks t4))).
+  { rewrite Ht4. unfold trksC, reorg_rows. rewrite map_map. erewrite map_ext; [exact Hnd3|].
+    intros k. destruct (_ && _); reflexivity. }
+  set (stale := map trk_uuid (filter (stale_sel lim) trksC)) in *.
+  destruct (stale_loop_gen sc h e stale t4 [] Hnd4) as [t5 [Es [[m5 [l5 Et5]] [Hc5 Hcov5]]]].
+  { intros x. rewrite (ca_eff _ _ _ Hc4). reflexivity. }
+  { intros u Hu. rewrite Ht4. unfold stale in Hu. apply in_map_iff in Hu. destruct Hu as [k [He Hk]].
+    apply filter_In in Hk. subst u. apply find_trk_In. tauto. }
+  rewrite Es in E. cbn [bind List.app] in E. rewrite Ht4 in *.
+  match type of E with context [match ?l with [] => _ | _ => _ end] => rewrite (delete_opt_false t5 l) in E end.
+  cbn [bind] in E.
+  inversion E. clear E.
+  exists idx, lim, tR, t3, t5. constructor; try assumption; try reflexivity.
+  - exists m5, l5. rewrite Et5, Et4. reflexivity.
+  - eapply carried_trans; eassumption.
+  - intros uuid k Hu Hf. specialize (Hcov4 uuid k Hu Hf). destruct Hcov4 as [A [B C]].
+    split; [exact A|]. split; [apply (ca_memo_mono _ _ _ Hc5); exact B|].
+    intros Hn. apply (ca_memo_mono _ _ _ Hc5). apply C. exact Hn.
+  - rewrite Hr1. reflexivity.
 Qed.
